@@ -13,7 +13,7 @@ var globalAssumptions = []string{
 	"go/packages+go/types+go/ssa (x/tools v0.29.0) give a faithful SSA of /repo's working tree; the SSA->VC translation of govc itself is trusted (exercised by the must-fail corpus, not verified)",
 	"z3 5.1.0 / z3 4.8.12 / cvc5 1.0.3 answer unsat soundly",
 	"machine integers are modelled as mathematical integers (no wrap-around); floats are an uninterpreted sort; strings are an uninterpreted sort with length/byte/substring/concat axioms",
-	"append is modelled as copy-on-append (result has a fresh backing array); effects of in-place append visible through aliases are not modelled",
+	"append writes in place (sharing the backing array of its first argument) exactly when the capacity suffices, otherwise into a fresh array; capacities of slices that come from outside the function are unconstrained",
 	"library functions are represented by the hand-written specs in govc/calls.go (strings, strconv, fmt, sort, utf8, runewidth, filepath); unlisted library calls return arbitrary well-typed values and do not write the package heap except as listed in govc/modset.go",
 	"closed world: the implementers of package interfaces are the ones in the package; goroutines, channels and select are not modelled (functions using them are verified as sequential code)",
 	"nullability facts (verif_contracts_auto.go) are inferred by a Houdini pass and re-verified on every run; preconditions of exported entry points that no in-package call site constrains are assumptions on API callers; functions only called through function values get no inferred precondition; containers filled by reflection-based decoding get no inferred element facts",
